@@ -369,6 +369,56 @@ def narrowing(ctx, fb, conv):
             if (c.callee or '').endswith('saturating_cast_i64_to_i32') or any(a and a[0] == 'fn' and str(a[1]).endswith('saturating_cast_i64_to_i32') for a in c.args):
                 n += 1
     ctx.inst(R, 'rust-single-door', not bad and n >= 2, 'no raw `as i32` cast of an i64 in the ONNX loader; %d uses of the saturating helper' % n if not bad else 'raw i64 -> i32 `as` cast at %s bypasses the saturating helper' % bad[0], '')
-    src = open(conv).read() + open(os.path.join(os.path.dirname(conv), 'tensor_data.py')).read() if os.path.exists(os.path.join(os.path.dirname(conv), 'tensor_data.py')) else open(conv).read()
-    okp = re.search(r'\.clip\(\s*i32\.min\s*,\s*i32\.max\s*\)|np\.clip\([^)]*i32\.min[^)]*i32\.max', src) is not None and re.search(r'i32\s*=\s*np\.iinfo\(np\.int32\)', src) is not None
-    ctx.inst(R, 'converter-clips', okp, 'the converter narrows int64 constants with np.clip to the int32 range' if okp else 'no np.clip to the int32 range found in the converter', 'rten-convert/rten_convert/converter.py')
+    # Python side, the sibling of rust-single-door: every `.astype(np.int32)` in the converter package is either applied to
+    # the result of `.clip(<iinfo(int32).min>, <iinfo(int32).max>)` (saturating) or sits in a `match dtype` case that only
+    # lists types narrower than int32 (a widening); anything else wraps out-of-range int64 values
+    import ast, glob
+    pkg = os.path.dirname(conv)
+    sites, badp = 0, []
+    WIDENING = {'bool', 'int8', 'uint8', 'int16', 'uint16', 'int32'}
+
+    def is_i32(node):
+        return isinstance(node, ast.Attribute) and node.attr == 'int32'
+
+    def iinfo_names(tree):
+        out = set()
+        for n in ast.walk(tree):
+            if isinstance(n, ast.Assign) and isinstance(n.value, ast.Call) and isinstance(n.value.func, ast.Attribute) and n.value.func.attr == 'iinfo' \
+                    and n.value.args and is_i32(n.value.args[0]):
+                for t in n.targets:
+                    if isinstance(t, ast.Name):
+                        out.add(t.id)
+        return out
+
+    for py in sorted(glob.glob(os.path.join(pkg, '*.py'))):
+        if py.endswith('schema_generated.py'):
+            continue
+        tree = ast.parse(open(py).read())
+        names = iinfo_names(tree)
+        parents = {}
+        for n in ast.walk(tree):
+            for ch in ast.iter_child_nodes(n):
+                parents[ch] = n
+        for n in ast.walk(tree):
+            if not (isinstance(n, ast.Call) and isinstance(n.func, ast.Attribute) and n.func.attr == 'astype' and n.args and is_i32(n.args[0])):
+                continue
+            sites += 1
+            recv = n.func.value
+            clipped = isinstance(recv, ast.Call) and isinstance(recv.func, ast.Attribute) and recv.func.attr == 'clip' and len(recv.args) == 2 and \
+                all(isinstance(a, ast.Attribute) and isinstance(a.value, ast.Name) and a.value.id in names for a in recv.args) and \
+                recv.args[0].attr == 'min' and recv.args[1].attr == 'max'
+            widening = False
+            q = n
+            while q in parents:
+                q = parents[q]
+                if isinstance(q, ast.match_case):
+                    pats = [x.value for x in ast.walk(q.pattern) if isinstance(x, ast.Constant) and isinstance(x.value, str)]
+                    widening = bool(pats) and set(pats) <= WIDENING
+                    break
+            if not (clipped or widening):
+                badp.append('%s:%d' % (os.path.relpath(py, os.path.dirname(os.path.dirname(pkg))), n.lineno))
+    okp = sites >= 2 and not badp
+    ctx.inst(R, 'converter-narrowing-saturates', okp,
+             'all %d `.astype(np.int32)` sites in the converter package follow a clip to the int32 range or widen a narrower type' % sites if okp else
+             '`.astype(np.int32)` without a preceding clip to the int32 range at %s: numpy wraps out-of-range int64 values (2**63-1 -> -1) where the ONNX loader saturates' % ', '.join(badp[:4]),
+             'rten-convert/rten_convert/converter.py')
